@@ -175,9 +175,10 @@ func (val Value) Equals(other Value) Value {
 			// An unknown with a dynamic type compares as unknown, which we need
 			// to check before the type comparison below.
 			return unknownResult()
-		case !val.ty.Equals(other.ty):
-			// There is no null comparison or dynamic types, so unequal types
-			// will never be equal.
+		case !typesCouldBeEqual(val.ty, other.ty):
+			// There is no null comparison, and no way the types could turn out
+			// to be the same once any dynamically-typed parts of the known
+			// value are decided, so the values will never be equal.
 			return False
 		default:
 			return unknownResult()
@@ -190,9 +191,10 @@ func (val Value) Equals(other Value) Value {
 			// An unknown with a dynamic type compares as unknown, which we need
 			// to check before the type comparison below.
 			return unknownResult()
-		case !other.ty.Equals(val.ty):
-			// There's no null comparison or dynamic types, so unequal types
-			// will never be equal.
+		case !typesCouldBeEqual(other.ty, val.ty):
+			// There is no null comparison, and no way the types could turn out
+			// to be the same once any dynamically-typed parts of the known
+			// value are decided, so the values will never be equal.
 			return False
 		default:
 			return unknownResult()
@@ -213,7 +215,7 @@ func (val Value) Equals(other Value) Value {
 	if !val.HasWhollyKnownType() || !other.HasWhollyKnownType() {
 		// Even if we have dynamic values, we can still determine inequality if
 		// there is no way the types could later conform.
-		if val.ty.TestConformance(other.ty) != nil && other.ty.TestConformance(val.ty) != nil {
+		if !typesCouldBeEqual(val.ty, other.ty) {
 			return BoolVal(false)
 		}
 
@@ -395,6 +397,45 @@ func (val Value) Equals(other Value) Value {
 	}
 
 	return BoolVal(result)
+}
+
+// typesCouldBeEqual returns false only if values of the two given types can
+// never have the same type, even after any dynamic pseudo-type placeholders
+// nested inside either type have been replaced by the types of real values.
+func typesCouldBeEqual(a, b Type) bool {
+	switch {
+	case a == DynamicPseudoType || b == DynamicPseudoType:
+		return true
+	case a.IsObjectType() && b.IsObjectType():
+		aAttrs := a.AttributeTypes()
+		bAttrs := b.AttributeTypes()
+		if len(aAttrs) != len(bAttrs) {
+			return false
+		}
+		for name, aty := range aAttrs {
+			bty, ok := bAttrs[name]
+			if !ok || !typesCouldBeEqual(aty, bty) {
+				return false
+			}
+		}
+		return true
+	case a.IsTupleType() && b.IsTupleType():
+		aElems := a.TupleElementTypes()
+		bElems := b.TupleElementTypes()
+		if len(aElems) != len(bElems) {
+			return false
+		}
+		for i := range aElems {
+			if !typesCouldBeEqual(aElems[i], bElems[i]) {
+				return false
+			}
+		}
+		return true
+	case (a.IsListType() && b.IsListType()) || (a.IsSetType() && b.IsSetType()) || (a.IsMapType() && b.IsMapType()):
+		return typesCouldBeEqual(a.ElementType(), b.ElementType())
+	default:
+		return a.Equals(b)
+	}
 }
 
 // NotEqual is a shorthand for Equals followed by Not.
